@@ -52,6 +52,7 @@ class Body:
         self.ended = False
         self.orient_passed = False
         self.skipped = []
+        self.raises = []  # (line, exception class name) of every `raise` statement translated
 
     # ---- slots
     def slot(self, name, create=False, node=None):
@@ -381,7 +382,13 @@ class Body:
             return "(.ite %s %s %s)" % (c, t, e)
         if isinstance(s, ast.Raise):
             self.note(s, "raise " + (_src(s.exc.func) if isinstance(s.exc, ast.Call) else "..."))
-            return "(.raise %d)" % s.lineno
+            cls_node = s.exc.func if isinstance(s.exc, ast.Call) else s.exc
+            if not isinstance(cls_node, ast.Name) or s.cause is not None:
+                _fail(s, "raise of something else than a builtin exception class (optionally called)")
+            # tag = ordinal of this `raise` within the function (NOT the line number: an edit elsewhere in the file must not move it)
+            tag = len(self.raises)
+            self.raises.append((tag, cls_node.id))
+            return "(.raise %d)" % tag
         if isinstance(s, ast.Assert):
             self.note(s)
             return "(.assert_ %s)" % self.expr(s.test)
@@ -643,6 +650,9 @@ def gen_fragments_src(ctx=None):
         L.append("-/")
         L.append("def %s : Stmt :=\n  %s" % ({"GF": "getFragment", "NE": "nelectrons", "NRE": "nre"}[ns], term))
         L.append("def %s : Nat := %d" % ({"GF": "gfSlots", "NE": "neSlots", "NRE": "nreSlots"}[ns], max(b.slots.values()) + 1))
+        L.append("/-- the `raise` statements of the body: (line = the tag of `.raise`, exception class named in the source) -/")
+        L.append("def %s : List (Nat × String) := [%s]" % ({"GF": "gfRaises", "NE": "neRaises", "NRE": "nreRaises"}[ns],
+                                                            ", ".join('(%d, "%s")' % (ln, c) for ln, c in b.raises)))
         L.append("")
     L.append("/-- number of float slots of nuclear_repulsion_energy and the one it returns -/")
     L.append("def nreKSlots : Nat := %d" % len(nre.kslots))
